@@ -18,6 +18,10 @@ global size_of usize == 8;
 #[verifier::external_body]
 pub struct NodeData { d: u8 }
 pub struct Node { pub version: u64, pub data: NodeData }
+impl Clone for Node {
+    #[verifier::external_body]
+    fn clone(&self) -> (r: Self) ensures r == *self { unimplemented!() }
+}
 impl Node {
     /// Node::remove_property: changes the payload, never the stamp
     #[verifier::external_body]
@@ -105,6 +109,20 @@ pub fn vec_filter_map_collect<'a, T, U, F: FnMut(&'a T) -> Option<U>>(v: &'a Vec
     requires forall|x: &T| f.requires((x,))
     ensures exists|sel: Seq<Option<U>>| #[trigger] picks(f, v@, sel) && r@ == somes(sel, sel.len() as int)
 { v.iter().filter_map(f).collect() }
+/// `v.iter().flatten().count()` / `.collect()` over a Vec of Vecs (A-STD): every element of every inner vector, in order
+pub open spec fn flat<T>(n: Seq<Vec<T>>, k: int) -> Seq<T>
+    decreases k
+{
+    if k <= 0 { Seq::empty() } else { flat(n, k - 1) + n[k - 1]@ }
+}
+#[verifier::external_body]
+pub fn vec_flatten_count<T>(v: &Vec<Vec<T>>) -> (r: usize)
+    ensures r == flat(v@, v@.len() as int).len()
+{ v.iter().flatten().count() }
+#[verifier::external_body]
+pub fn vec_flatten_collect<'a, T>(v: &'a Vec<Vec<T>>) -> (r: Vec<&'a T>)
+    ensures r@.len() == flat(v@, v@.len() as int).len(), forall|j: int| 0 <= j < r@.len() ==> *#[trigger] r@[j] == flat(v@, v@.len() as int)[j]
+{ v.iter().flatten().collect() }
 /// `v.iter().rposition(p)`: the index of the last element satisfying p
 pub open spec fn sat1<T, P: FnMut(&T) -> bool>(p: P, x: T, b: bool) -> bool { exists|r: &T| *r == x && p.ensures((r,), b) }
 #[verifier::external_body]
@@ -256,7 +274,7 @@ pub proof fn lemma_read_is_read(c: Seq<Node>, v: u64)
 
 /// dropping everything before the last element stamped at or below m changes no read at or above m
 pub proof fn lemma_drop_prefix(c: Seq<Node>, idx: int, m: u64)
-    requires chain_sorted(c), 0 <= idx < c.len(), c[idx].version <= m, forall|j: int| idx < j < c.len() ==> c[j].version > m
+    requires chain_sorted(c), 0 <= idx < c.len(), c[idx].version <= m
     ensures
         chain_sorted(c.skip(idx)),
         forall|v: u64| v >= m ==> #[trigger] read(c.skip(idx), v) == read(c, v),
@@ -271,6 +289,15 @@ pub proof fn lemma_drop_prefix(c: Seq<Node>, idx: int, m: u64)
         assert forall|j: int| r - idx < j < d.len() implies d[j].version > v by { assert(d[j] == c[j + idx]); }
         lemma_read_idx_unique(d, v, r - idx);
     }
+}
+/// an element stamped above v at the end of a chain is invisible to a read at v
+pub proof fn lemma_read_ignores_newer_last(c: Seq<Node>, n: Node, v: u64)
+    requires n.version > v
+    ensures read(c.push(n), v) == read(c, v)
+{
+    assert(c.push(n).drop_last() =~= c);
+    lemma_read_idx(c, v);
+    if read_idx(c, v) >= 0 { assert(c.push(n)[read_idx(c, v)] == c[read_idx(c, v)]); }
 }
 /// the number of versions in the first k chains; all of them live in memory at once (A-MEM, assumed): the total fits usize
 pub open spec fn total_len<T>(n: Seq<Vec<T>>, k: int) -> int
@@ -328,7 +355,7 @@ pub open spec fn eprops(log: Option<Seq<EdgeVersionEntry>>, cur: PropertyMap, cv
     match log {
         None => (1u64, cur),
         Some(l) => if elast(l, v) >= 0 {
-            if has_later(l, v) || v < cv { (l[elast(l, v)].version, l[elast(l, v)].properties) } else { (l[elast(l, v)].version, cur) }
+            if v < cv { (l[elast(l, v)].version, l[elast(l, v)].properties) } else { (l[elast(l, v)].version, cur) }
         } else { (1u64, cur) },
     }
 }
@@ -338,7 +365,7 @@ pub open spec fn esame(a: Seq<EdgeVersionEntry>, b: Seq<EdgeVersionEntry>, m: u6
         && (elast(a, v) >= 0 ==> a[elast(a, v)] == b[elast(b, v)]) && has_later(a, v) == has_later(b, v)
 }
 pub proof fn lemma_edrop_prefix(l: Seq<EdgeVersionEntry>, idx: int, m: u64)
-    requires log_sorted(l), 0 <= idx < l.len(), l[idx].version <= m, forall|j: int| idx < j < l.len() ==> l[j].version > m
+    requires log_sorted(l), 0 <= idx < l.len(), l[idx].version <= m
     ensures log_sorted(l.skip(idx)), esame(l.skip(idx), l, m)
 {
     let d = l.skip(idx);
@@ -432,8 +459,7 @@ impl GraphStore {
 
 //@fn GraphStore::gc_watermark ret=r props=C08
 //@requires
-        forall|t: TxnId| #[trigger] self.active_transactions@.contains_key(t) && self.active_transactions@[t].status == TxnStatus::Active
-            ==> self.active_transactions@[t].start_version <= self.current_version,
+        forall|t: TxnId| #[trigger] self.active_transactions@.contains_key(t) ==> self.active_transactions@[t].start_version <= self.current_version,
 //@ensures
         r <= self.current_version,                                                                    //#at_most_current
         forall|t: TxnId| #[trigger] self.active_transactions@.contains_key(t) && self.active_transactions@[t].status == TxnStatus::Active
@@ -478,6 +504,9 @@ impl GraphStore {
 //@end
 
 //@fn GraphStore::get_edge_at_version ret=r props=C07,C08
+//@requires
+        // log entries are stamped at or below the current version (set_edge_property stamps with current_version)
+        self.edge_version_log@.contains_key(id) ==> forall|k: int| 0 <= k < self.edge_version_log@[id]@.len() ==> (#[trigger] self.edge_version_log@[id]@[k]).version <= self.current_version,
 //@ensures
         r matches Some(e) ==> (e.version, e.properties) == eprops(self.elog(id), self.cur_props(id), self.current_version, version)
             && e.version <= version && e.id == id,                                                    //#resolves_as_specified
@@ -505,6 +534,7 @@ impl GraphStore {
 //@fn GraphStore::node_count ret=r props=C07
 //@ensures
         r == live(self.nodes@, self.nodes@.len() as int),                          //#one_per_node_whatever_its_versions
+//@replace "self.nodes.iter().flatten().count()" => "vec_flatten_count(&self.nodes)" :: (only present in older versions of the function) iterator chain routed through a wrapper whose body is the same chain
 //@replace "self.nodes.iter().filter(" => "vec_count_where(&self.nodes, " :: iterator chain routed through a wrapper whose body is the same chain
 //@replace ").count()" => ")" :: (same chain)
 //@closure vec_count_where#1 (versions: &&Vec<Node>) -> (b: bool) ensures b == (versions@.len() > 0)
@@ -516,6 +546,7 @@ impl GraphStore {
 //@ensures
         r@.len() == latest(self.nodes@, self.nodes@.len() as int).len(),           //#one_per_node
         forall|j: int| 0 <= j < r@.len() ==> *#[trigger] r@[j] == latest(self.nodes@, self.nodes@.len() as int)[j],     //#newest_version_of_each
+//@replace "self.nodes.iter().flatten().collect()" => "vec_flatten_collect(&self.nodes)" :: (only present in older versions of the function) iterator chain routed through a wrapper whose body is the same chain
 //@replace "self.nodes.iter().filter_map(" => "vec_filter_map_collect(&self.nodes, " :: iterator chain routed through a wrapper whose body is the same chain
 //@replace ").collect()" => ")" :: (same chain)
 //@closure vec_filter_map_collect#1 (versions: &Vec<Node>) -> (o: Option<&Node>) ensures (match o { Some(x) => versions@.len() > 0 && *x == versions@.last(), None => versions@.len() == 0 })
@@ -523,14 +554,13 @@ impl GraphStore {
         broadcast use lemma_somes_is_latest;
 //@end
 
-    /// GraphStore::get_node_mut -- `self.nodes.get_mut(i).and_then(|v| v.last_mut())` -- ASSUMED: Verus accepts the text
-    /// but vstd has no final-value specification for slice::get_mut, so its contract (a mutable reference to the NEWEST
-    /// version of the chain; nothing else changes) is stated here and not proved
+    /// GraphStore::get_node_mut -- `self.nodes.get_mut(i).and_then(|v| v.last_mut())` -- ASSUMED (not called by the
+    /// functions under contract today; kept so that code which goes back to mutating through it stays decidable): a mutable
+    /// reference to the NEWEST version of the chain; nothing else changes.  (vstd has no final-value spec for slice::get_mut.)
     #[verifier::external_body]
     pub fn get_node_mut(&mut self, id: NodeId) -> (r: Option<&mut Node>)
         ensures
             final(self).nodes@.len() == old(self).nodes@.len() && final(self).current_version == old(self).current_version,
-            final(self).node_columns == old(self).node_columns,
             forall|k: int| 0 <= k < old(self).nodes@.len() && k != id.0 as int ==> final(self).nodes@[k]@ == old(self).nodes@[k]@,
             match r {
                 Some(n) => (id.0 as int) < old(self).nodes@.len() && old(self).nodes@[id.0 as int]@.len() > 0
@@ -556,6 +586,34 @@ impl GraphStore {
         forall|id: int, v: u64| 0 <= id < old(self).nodes@.len() && v < old(self).current_version
             ==> #[trigger] read(final(self).nodes@[id]@, v) == read(old(self).nodes@[id]@, v),          //#reads_below_current_version_unchanged
         final(self).nodes@.len() == old(self).nodes@.len(),                                           //#same_nodes
+        final(self).stamped(),                                                                        //#stamps_stay_sorted_and_current
+//@before "if stale {"
+            let ghost c0 = versions@;
+//@before "if let Some(node) = versions.last_mut() {"
+            let ghost c_mid = versions@;
+//@before "self.invalidate_statistics_cache();"
+        proof {
+            if idx < old(self).nodes@.len() {
+                let c0 = old(self).nodes@[idx as int]@;
+                let c1 = self.nodes@[idx as int]@;
+                let cv = old(self).current_version;
+                if c0.len() > 0 {
+                    // the chain now ends in a version stamped cv; everything before it is the old chain (minus, if it was
+                    // already stamped cv, its last element)
+                    assert forall|v: u64| v < cv implies read(c1, v) == read(c0, v) by {
+                        if c0.last().version < cv {
+                            assert(c1 =~= c0.push(c1.last()));
+                            lemma_read_ignores_newer_last(c0, c1.last(), v);
+                        } else {
+                            assert(c1 =~= c0.drop_last().push(c1.last()));
+                            assert(c0 =~= c0.drop_last().push(c0.last()));
+                            lemma_read_ignores_newer_last(c0.drop_last(), c1.last(), v);
+                            lemma_read_ignores_newer_last(c0.drop_last(), c0.last(), v);
+                        }
+                    }
+                }
+            }
+        }
 //@end
 
 
@@ -668,8 +726,7 @@ impl GraphStore {
 //@requires
         old(self).chains_sorted(),
         Self::elogs_sorted(old(self).edge_version_log@),
-        forall|t: TxnId| #[trigger] old(self).active_transactions@.contains_key(t) && old(self).active_transactions@[t].status == TxnStatus::Active
-            ==> old(self).active_transactions@[t].start_version <= old(self).current_version,
+        forall|t: TxnId| #[trigger] old(self).active_transactions@.contains_key(t) ==> old(self).active_transactions@[t].start_version <= old(self).current_version,
 //@ensures
         Self::active_kept(old(self).active_transactions@, final(self).active_transactions@),                          //#active_transactions_kept
         final(self).current_version == old(self).current_version && final(self).nodes@.len() == old(self).nodes@.len(),   //#frame
